@@ -9,6 +9,7 @@ import (
 	"fmt"
 	"math/rand"
 	"net"
+	"os"
 	"strings"
 	"testing"
 	"testing/synctest"
@@ -64,6 +65,7 @@ type h2Hist struct {
 	cidUser  map[int]string
 	boundCid map[int]bool
 	tcpMode  bool
+	cidLid   map[int]int
 }
 
 func (h *h2Hist) pick(xs ...int) int { return xs[h.rng.Intn(len(xs))] }
@@ -232,7 +234,7 @@ func (h *h2Hist) pickClient() *h2Client {
 		n := 1 + h.rng.Intn(3)
 		for i := 0; i < n; i++ {
 			lid := 0
-			if len(h.w.lis) > 1 && (h.rng.Intn(3) == 0 || h.tcpMode) {
+			if len(h.w.lis) > 1 && (h.rng.Intn(3) == 0 || (h.tcpMode && h.rng.Intn(4) != 0)) {
 				lid = 1
 			}
 			h.active = append(h.active, [2]int{lid, h.rng.Intn(len(h.cpool))})
@@ -731,7 +733,7 @@ func runH2History(t *testing.T, vt *vhT, seed int64, nOps int) {
 	rng := rand.New(rand.NewSource(seed))
 	synctest.Test(t, func(t *testing.T) {
 		h := &h2Hist{vt: vt, rng: rng, t0: time.Now(), lastTid: map[string]int{}, owner: map[string]string{}, relays: map[string]int{},
-			relayTCP: map[string]bool{}, cidUser: map[int]string{}, boundCid: map[int]bool{}, nextPort: 50000, nextEven: 60000, dataPort: 7000, kinds: map[string]bool{}}
+			relayTCP: map[string]bool{}, cidUser: map[int]string{}, boundCid: map[int]bool{}, cidLid: map[int]int{}, nextPort: 50000, nextEven: 60000, dataPort: 7000, kinds: map[string]bool{}}
 		d := func(xs ...time.Duration) time.Duration { return xs[rng.Intn(len(xs))] }
 		cfg := ServerConfig{
 			PermissionTimeout:   d(0, 0, 5*time.Minute, 30*time.Second, 12*time.Minute, 2*time.Second),
@@ -758,17 +760,20 @@ func runH2History(t *testing.T, vt *vhT, seed int64, nOps int) {
 			l0.unspec = true
 		}
 		lis := []*h2Listener{l0}
-		h.tcpMode = rng.Intn(4) == 0
+		h.tcpMode = rng.Intn(4) == 0 || os.Getenv("VERIF_H2_MODE") == "tcp"
 		if rng.Intn(2) == 0 || h.tcpMode {
 			lis = append(lis, &h2Listener{stream: true, ip: net.ParseIP("10.0.0.1").To4(), vetoed: vetoed[:1]})
 		}
 		w := newH2World(vt, cfg, lis, withAuth, withQuota)
 		h.w = w
+		var lidOf int
 		w.onCid = func(idx int, key string, bound bool) {
 			if bound {
 				h.boundCid[idx] = true
 			} else if u, ok := h.owner[key]; ok {
 				h.cidUser[idx] = u
+				fmt.Sscan(key, &lidOf)
+				h.cidLid[idx] = lidOf
 			}
 		}
 		s := w.srv
